@@ -4,8 +4,12 @@
     file <size> <seed>         current file := pattern bytes (see `pattern`)  → ok
     hexfile <hex>              current file := explicit bytes                                → ok
     policy <k>                 read policy: k = 0 full reads, else at most 1 + (off*7 + n*13 + k*101) % (k*997) bytes → ok
-    check <name,name,…> <start> <length> <block>
-                               → hashes <alg> <hex> | too-small | no-alg | no-fuel   (hash = the toy hash)
+    fault <T|-> <code>         reads at offsets >= T return the error code instead of bytes (`-` = never) → ok
+    statfail <code|->          the handle's stat() returns the error code                    → ok
+    check <name,name,…> <start> <length> <block>       (valid handle)
+    checkbad <name,name,…> <start> <length> <block>    (handle not in the file table)
+                               → hashes <alg> <hex> | too-small | no-alg | bad-handle | stat-fail <code>
+                                 | read-fail <code> | no-fuel                        (hash = the toy hash)
 -/
 import PV.Model.CheckFile
 import PV.Base.DriverIO
@@ -15,6 +19,9 @@ structure St where
   known : List Bytes
   content : Bytes
   k : Nat
+  faultAt : Option Nat := none
+  faultCode : Nat := 4
+  statErr : Option Nat := none
 
 def pattern (size seed : Nat) : Bytes :=
   (List.range size).map fun i =>
@@ -42,16 +49,32 @@ def step (st : St) (line : String) : St × String :=
     match k.toNat? with
     | some k => ({ st with k := k }, "ok")
     | none => (st, "bad-op")
-  | ["check", algs, start, length, bs] =>
+  | ["fault", t, code] =>
+    match (if t == "-" then some none else t.toNat?.map some), code.toNat? with
+    | some t, some c => ({ st with faultAt := t, faultCode := c }, "ok")
+    | _, _ => (st, "bad-op")
+  | ["statfail", code] =>
+    match (if code == "-" then some none else code.toNat?.map some) with
+    | some c => ({ st with statErr := c }, "ok")
+    | none => (st, "bad-op")
+  | [cmd, algs, start, length, bs] =>
+    if cmd != "check" && cmd != "checkbad" then (st, "bad-op") else
     match start.toNat?, length.toNat?, bs.toNat? with
     | some s, some l, some b =>
-      match selectAlg st.known (names algs) with
-      | none => (st, "no-alg")
-      | some a =>
-        match checkFile toyAlg { content := st.content, short := policy st.k } s l b with
-        | .hashes h => (st, "hashes " ++ String.ofList (a.map fun c => Char.ofNat c.toNat) ++ " " ++ toHexTok h)
-        | .tooSmall => (st, "too-small")
-        | .noFuel => (st, "no-fuel")
+      let env : Env := { content := st.content, short := policy st.k,
+                         readErr := fun off _ => match st.faultAt with
+                           | some t => if off ≥ t then some st.faultCode else none
+                           | none => none,
+                         statErr := st.statErr }
+      let (r, a) := request toyAlg (if cmd == "check" then some env else none) st.known (names algs) s l b
+      match r with
+      | .hashes h => (st, "hashes " ++ String.ofList (a.map fun c => Char.ofNat c.toNat) ++ " " ++ toHexTok h)
+      | .tooSmall => (st, "too-small")
+      | .statFail c => (st, s!"stat-fail {c}")
+      | .readFail c => (st, s!"read-fail {c}")
+      | .badHandle => (st, "bad-handle")
+      | .noAlg => (st, "no-alg")
+      | .noFuel => (st, "no-fuel")
     | _, _, _ => (st, "bad-op")
   | _ => (st, "bad-op")
 
